@@ -21,6 +21,8 @@ pub struct ClientSlot {
     pub connected_at: Option<u64>,
     pub client_nonce: Option<u32>,          // nonce of the SYNs this client object sends
     pub accepted_server_nonce: Option<u32>, // nonce_ack of the first handshake ACK this client sent
+    pub finished: bool,                     // this client object has reported its terminal event
+    pub reconnects: u32,
 }
 
 pub struct Held {
@@ -99,7 +101,7 @@ impl Sess {
         set_rcvbuf(&relay);
         let relay_addr = relay.local_addr().unwrap();
         let i = self.slots.len();
-        self.slots.push(ClientSlot { name: format!("c{}", i), client: None, relay, relay_addr, client_addr: None, cfg, connected_at: None, client_nonce: None, accepted_server_nonce: None });
+        self.slots.push(ClientSlot { name: format!("c{}", i), client: None, relay, relay_addr, client_addr: None, cfg, connected_at: None, client_nonce: None, accepted_server_nonce: None, finished: false, reconnects: 0 });
         i
     }
 
@@ -148,6 +150,9 @@ impl Sess {
                 self.slots[i].client_addr = Some(c.local_address());
                 self.slots[i].client = Some(c);
                 self.slots[i].connected_at = Some(self.t_ms());
+                self.slots[i].client_nonce = None;
+                self.slots[i].accepted_server_nonce = None;
+                self.slots[i].finished = false;
                 self.short_out.remove(&(i, true));
                 self.short_out.remove(&(i, false));
                 let c = &self.slots[i].cfg;
@@ -180,8 +185,14 @@ impl Sess {
                             "rate": (l.max_send_rate as u64).min(2_000_000_000)}));
                     }
                 }
-                client::Event::Disconnect => tr.line(json!({"ev": "Event", "ep": name, "peer": "s", "kind": "Disconnect", "t": t})),
-                client::Event::Error(e) => tr.line(json!({"ev": "Event", "ep": name, "peer": "s", "kind": "Error", "err": format!("{:?}", e), "t": t})),
+                client::Event::Disconnect => {
+                    self.slots[i].finished = true;
+                    tr.line(json!({"ev": "Event", "ep": name, "peer": "s", "kind": "Disconnect", "t": t}))
+                }
+                client::Event::Error(e) => {
+                    self.slots[i].finished = true;
+                    tr.line(json!({"ev": "Event", "ep": name, "peer": "s", "kind": "Error", "err": format!("{:?}", e), "t": t}))
+                }
                 client::Event::Receive(p) => {
                     let (uid, m) = self.identify_from(Some(i), true, &p);
                     tr.line(json!({"ev": "Event", "ep": name, "peer": "s", "kind": "Receive", "uid": uid, "match": m, "len": p.len(), "t": t}));
